@@ -52,6 +52,30 @@ theorem C25_runs_validated (pwOK : Bytes → Bytes → Bool) (c : Cfg) (m : Meta
   · rw [hw] at hw'; cases hw'
   · exact ⟨rfl, hm, ha⟩
 
+/-- Everything request-controlled that reaches `exec.Cmd` (tied by the `exec` / `execp` ops to
+    `Cmd.Args`, `Cmd.Env`, `Cmd.Dir` of the real sessions): the validated argument vector — and,
+    NOT validated by anything, the request's working directory and its environment pairs, appended
+    after the agent's own environment (so they win).  The statement of C25 constrains command and
+    arguments only; that `LD_PRELOAD=…`, `BASH_ENV=…` or an arbitrary absolute `work_dir` reach a
+    whitelisted program is recorded here, not judged. -/
+theorem C25_exec_surface (pty : Bool) (term : Bytes) (m : Meta) :
+    (execSurface pty term m).argv = m.command :: m.args ∧
+    (execSurface pty term m).dir = m.workDir ∧
+    (∀ e ∈ m.env, e ∈ (execSurface pty term m).envExtra) ∧
+    (∀ e ∈ (execSurface pty term m).envExtra, e ∈ m.env ∨ (pty = true ∧ e = "TERM=".toUTF8.toList ++ term)) := by
+  refine ⟨rfl, rfl, ?_, ?_⟩
+  · intro e he
+    unfold execSurface
+    exact List.mem_append_right _ he
+  · intro e he
+    unfold execSurface at he
+    simp only at he
+    rcases List.mem_append.mp he with h | h
+    · cases pty with
+      | true => right; simp at h; exact ⟨rfl, h⟩
+      | false => simp at h
+    · exact Or.inl h
+
 /-- A refused request leaves the counter alone. -/
 theorem C25_reject_keeps_counter (pwOK : Bytes → Bytes → Bool) (c : Cfg) (m : Meta) (n : Int)
     (h : (validateAndAcquire pwOK c m n).1 ≠ .ok) : (validateAndAcquire pwOK c m n).2 = n := by
